@@ -2249,6 +2249,19 @@ class Engine(object):
             return self.call_contract(self.registry[q], args, kwargs, node)
         if q is not None and q == self.c.qualname:
             return self.call_contract(self.c, args, kwargs, node)  # recursion: by contract
+        if (q is not None and isinstance(fn, types.FunctionType) and fn.__module__ == self.c.module
+                and '<locals>' not in fn.__qualname__ and getattr(self, '_inline_depth', 0) < 4):
+            # a function of the module under verification without a contract of its own: its body is verified in place
+            from .. import scratch as _scratch
+            pnode, _, _ = load_function(fn.__module__, fn.__qualname__, _scratch.scratch_src())
+            key = 'inlined(no contract of its own):' + q
+            self.trusted_used[key] = self.trusted_used.get(key, 0) + 1
+            depth = getattr(self, '_inline_depth', 0)
+            self._inline_depth = depth + 1
+            try:
+                return self.call_closure(PFunc(pnode, Frame(), fn.__name__), list(args), kwargs)
+            finally:
+                self._inline_depth = depth
         return self.call_builtin(fn, args, kwargs, node)
 
     def qualname_of(self, fn):
@@ -2474,6 +2487,10 @@ class Engine(object):
 
     def str_join(self, sep, it, node):
         seq = self.iter_contents(it)
+        jm = self.c.env.get('__join_model__')
+        if jm is not None and isinstance(seq, list) and sep != '' and not all(isinstance(x, str) for x in seq):
+            self.trusted_used['model:str.join / str.split (contract-supplied)'] = self.trusted_used.get('model:str.join / str.split (contract-supplied)', 0) + 1
+            return jm(self, sep, seq)
         if isinstance(seq, list):
             if all(isinstance(x, str) for x in seq):
                 return sep.join(seq)
